@@ -68,24 +68,7 @@ spec fn pair_of<V>(n: NfaBuilder<char, V>, sid: int, table: Seq<u32>, label: cha
     nfa_edges(n, sid).contains_key(label) && nfa_edges(n, sid)[label] == p.1 && map_code(table, label as u32) == Some(p.0)
 }
 
-// a permutation has the same elements
-proof fn lemma_perm_contains<T>(a: Seq<T>, b: Seq<T>)
-    requires a.to_multiset() == b.to_multiset(),
-    ensures forall|x: T| a.contains(x) <==> b.contains(x),
-        a.no_duplicates() ==> b.no_duplicates(),
-{
-    a.to_multiset_ensures();
-    b.to_multiset_ensures();
-    assert forall|x: T| a.contains(x) <==> b.contains(x) by {
-        assert(a.contains(x) <==> a.to_multiset().count(x) > 0);
-        assert(b.contains(x) <==> b.to_multiset().count(x) > 0);
-    }
-    if a.no_duplicates() {
-        a.lemma_multiset_has_no_duplicates();
-        b.lemma_multiset_has_no_duplicates_conv();
-    }
-}
-
+//@include ghost_perm.rs
 // trusted: char's Ord is a total order consistent with == (vstd ships this law for the integer types only)
 #[verifier::external_body]
 proof fn axiom_char_key_model()
@@ -493,4 +476,13 @@ proof fn lemma_enc_nospur<V>(st: Seq<State>, table: Seq<u32>, n: NfaBuilder<char
 {
     reveal(cw_encodes);
     choose|c: char| nfa_edges(n, s).contains_key(c) && code_of(table, c) == mc && idmap[nfa_edges(n, s)[c] as int] == (st[idmap[s] as int].base.unwrap()@ ^ mc)
+}
+
+// slots that hold no automaton state keep OUTPUT_POS == None
+spec fn slot_used_cw<V>(n: NfaBuilder<char, V>, idmap: Seq<u32>, x: int) -> bool {
+    exists|s: int| 0 <= s < n.states@.len() && s != 1 && #[trigger] idmap[s] == x
+}
+spec fn cw_built<V>(st: Seq<State>, table: Seq<u32>, n: NfaBuilder<char, V>, idmap: Seq<u32>) -> bool {
+    &&& cw_encodes(st, table, n, idmap)
+    &&& forall|x: int| 0 <= x < st.len() ==> (#[trigger] st[x]).output_pos.is_none() || slot_used_cw(n, idmap, x)
 }
